@@ -45,6 +45,15 @@ func (t *tr) writeArg(v *val, e string, bindOnly bool) {
 	}
 	switch v.t.k {
 	case kZ, kFe, kArrPtr:
+		if v.el != nil {
+			t.writeElem(v.el, e)
+			return
+		}
+		t.writeCell(v.c, e, bindOnly)
+	case kList, kZList:
+		if v.c == nil {
+			t.fail("callee writes the elements of a slice that is a value for the translator")
+		}
 		t.writeCell(v.c, e, bindOnly)
 	case kSlice:
 		if v.c == nil || v.c.slen == 0 || v.lo != 0 || (v.hi >= 0 && v.hi != v.c.slen) {
@@ -80,6 +89,13 @@ func (t *tr) mkVal(ty *typ, e string) *val {
 		return &val{t: ty, e: e}
 	case kStruct:
 		return &val{t: ty, o: t.newObject(ty.sd, e, oLocal)}
+	case kList:
+		if intList(ty) {
+			c := t.newCell(e, "", oLocal)
+			c.ty = "list Z"
+			return &val{t: ty, c: c}
+		}
+		return &val{t: ty, e: e}
 	}
 	t.fail("result of type %s is not representable", ty)
 	return nil
@@ -112,6 +128,10 @@ func compat(want, got *typ) bool {
 		return want.n == got.n
 	case kStruct:
 		return want.sd == got.sd && want.ptr == got.ptr
+	case kList:
+		return compat(want.elem, got.elem)
+	case kFe, kByte:
+		return want.gold == got.gold
 	}
 	return true
 }
@@ -145,6 +165,9 @@ func (t *tr) callNamed(pn, key string, recv *val, ce *ast.CallExpr) callRes {
 			t.fail("argument %d of %s.%s has side effects: evaluation order is not modelled", i, pn, key)
 		}
 	}
+	if t.g.loops {
+		argv = t.adaptArgs(sm, argv)
+	}
 	if len(argv) != len(sm.params) {
 		t.fail("call of %s.%s with %d arguments, expected %d", pn, key, len(argv), len(sm.params))
 	}
@@ -153,12 +176,23 @@ func (t *tr) callNamed(pn, key string, recv *val, ce *ast.CallExpr) callRes {
 		t.secUsed[sv] = true
 	}
 	for i, p := range sm.params {
-		if !compat(p.t, argv[i].t) {
+		if !(t.g.loops && p.v.c != nil && p.v.c.nilable && argv[i].isNil) && !compat(p.t, argv[i].t) {
 			t.fail("argument %d of %s.%s has type %s, expected %s", i, pn, key, argv[i].t, p.t)
 		}
 		if sm.used[i] {
+			if p.v.c != nil && p.v.c.nilable { // option Z
+				if argv[i].isNil {
+					coq += " None"
+				} else {
+					coq += " (Some " + par(t.valueOf(argv[i])) + ")"
+				}
+				continue
+			}
 			coq += " " + par(t.valueOf(argv[i]))
 		}
+	}
+	if t.g.loops {
+		t.checkDisjointArgs(pn, key, sm, argv)
 	}
 	if sm.inplace {
 		t.fail("%s.%s writes the integers behind its receiver's fields in place: calls of it are not modelled", pn, key)
@@ -237,6 +271,12 @@ func (t *tr) external(pn, key string, recv *val, ce *ast.CallExpr) (callRes, boo
 			t.fail("argument %d of %s.%s has type %s, expected []*big.Int", i, pn, key, v.t)
 		}
 		return par(v.e)
+	}
+	if t.g.loops {
+		switch pn + "." + key {
+		case "utils.SwapEndianness", "utils.CheckBigIntArrayInField", "babyjub.Point.Mul":
+			return callRes{}, false // translated, with their loops
+		}
 	}
 	switch pn + "." + key {
 	case "utils.SwapEndianness": // loop
